@@ -16,6 +16,8 @@
   * (any linear order, arbitrary arithmetic = any rounding)  `first_is_clamped_x0`,
     `coord_init_in_bounds`, `coord_init_count`, `rand_dirs_in_bounds`, `rand_dirs_count`,
     `orthog_dirs_in_bounds`, `orthog_dirs_count`;
+    `coord_init_old_overshoots`: kernel-evaluated IEEE witness that the pinned (pre-`fix:`) formula
+    `xbase + clip` left the box (46 ulp), and that the repaired one lands on `xu`;
   * (exact arithmetic over a linearly ordered field; hypothesis: rhobeg > 0 and gap ≥ 2·rhobeg in
     every coordinate, NOTHING about x0; every outcome of the objective-dependent swap)
     `coord_init_points`, `coord_init_pair_points`, `coord_init_distance`, `first_two_steps_distinct`,
@@ -29,7 +31,7 @@
   * NOT PROVED (stated only): `cond(W) < 1e4` for the scaled interpolation matrix
         W = [1 | (y_t − x_opt)/max_t ‖y_t − x_opt‖]            (model.py:307-320)
     — a statement about singular values; the search checks it numerically on every run
-    (worst value seen ≈ 1.4e3 for n ≤ 8).
+    (worst value seen for n ≤ 8: ≈ 2.2e3 in 10⁴ solver runs, ≈ 2.4e3 in a directed search over the step table).
   * FINDING (recorded, not repaired — a design choice of the code): the property says every returned
     direction is "no longer than the requested length".  Block 4 of
     `random_orthog_directions_within_bounds` ("extra directions for active constraints",
@@ -567,6 +569,12 @@ theorem orthog_block4_two_delta :
     orthogDirs 2 1 true (1 : ℚ) (fun _ => 0) (fun _ => 3) (fun _ _ => 0) (fun _ _ => 0) (fun _ => 1) = [[1], [2]] ∧
       blockOf 1 0 true 1 = 4 := by
   decide +kernel
+
+/-- the hypotheses of `orthog_block4_value` are satisfiable (same call as above) -/
+example : orthogDir 1 true (1 : ℚ) (fun _ => 0) (fun _ => 3) (fun _ _ => 0) (fun _ _ => 0) (fun _ => 1) 1 0 = min (2 * 1) 3 ∧
+    (1 : ℚ) < orthogDir 1 true (1 : ℚ) (fun _ => 0) (fun _ => 3) (fun _ _ => 0) (fun _ _ => 0) (fun _ => 1) 1 0 :=
+  orthog_block4_value 1 1 (fun _ => 0) (fun _ => 3) (fun _ _ => 0) (fun _ _ => 0) (fun _ => 1) (by norm_num) 1
+    (by decide +kernel) (by decide) 0 (by decide +kernel) (by decide) rfl (by norm_num)
 
 /-! non-vacuity of the generator theorems: a box with one active lower bound (the draw -3 is flipped to 3),
     one inactive variable whose lower bound -1/2 limits the scale to 5/8 -/
